@@ -1,7 +1,9 @@
 from .csvcommon import *
 ID = "C15"
-FUNCTIONS = CSV_FUNCS
+# the file-level claims on CSVStorage, plus the database-level half of "a no-op write leaves no trace": remove/update whose selection is empty or
+# whose update changes nothing leave storage untouched and discard temporary storage (clauses nothing_selected_changes_nothing / no_change_leaves_storage_untouched / temp_empty)
+FUNCTIONS = CSV_FUNCS + [TF + f for f in ("_remove_helper", "remove", "_update_helper", "update", "update_all")]
 ASSUMED = []
 STANDIN = "standins/csvio.py"
-TRUSTED = IO_TRUSTED
+TRUSTED = IO_TRUSTED + [STORAGE_ASSUMED, QUERY_ASSUMED]
 ASSUMPTIONS = ["A-single: one process, one TinyFlux object per file", "A-buf: one csv row fits the text/binary buffers, so bytes reach the disk only at flush/seek/close"]
